@@ -291,5 +291,18 @@ func runAll(c *hx.Ctx) error {
 			return err
 		}
 	}
+	// black-box route: the thorough tier, or -D blackbox=<number of data sets>
+	nbb := 0
+	if c.Tier == "thorough" && only < 0 {
+		nbb = 8
+	}
+	if v := c.Arg("blackbox", ""); v != "" {
+		fmt.Sscanf(v, "%d", &nbb)
+	}
+	if nbb > 0 {
+		if err := runBlackbox(c, hx.NewRng(hx.NewRng(c.Seed).U64()^0xBB08), nbb, nq); err != nil {
+			return fmt.Errorf("black-box route: %v", err)
+		}
+	}
 	return nil
 }
